@@ -10,7 +10,7 @@ from . import build as B
 from . import model as Mo
 from . import engine as En
 from . import expr as E
-from .walk import Walker, close, distance
+from .walk import Walker, close, distance, fl
 
 
 # ---------------------------------------------------------------------------------------------
@@ -429,6 +429,18 @@ class C16(Check):
                         self.exact_rows += 1 if d == gv else 0
 
 
+def lagrange_value(ts, ys, t):
+    """value at t of the polynomial through (ts, ys), exact"""
+    total = Fr(0)
+    for i in range(len(ts)):
+        w = Fr(1)
+        for l in range(len(ts)):
+            if l != i:
+                w *= (t - ts[l]) / (ts[i] - ts[l])
+        total += ys[i] * w
+    return total
+
+
 def lagrange_derivative(ts, ys, t):
     """derivative at t of the polynomial through (ts, ys), exact"""
     n = len(ts)
@@ -508,3 +520,388 @@ def jet2_der(desc, e, env):
     for key, val in env.items():
         env3[key] = (val, v1.get(key, Fr(0)), a2.get(key, Fr(0)))
     return 2 * jet_eval(e, env3)[2]
+
+
+# ---------------------------------------------------------------------------------------------
+INF_METHODS = [('ms', 'rk'), ('ss', 'rk'), ('dc', 'rk')]
+INF_GRIDS = ['uniform', 'uniform', 'geometric', 'geometric_local', 'data', 'free', 'uniform_locT', 'geometric_locT']
+
+
+def gen_inf_case(rng, plain=False, extra=None):
+    """OCP with scalar states and one grid='inf' constraint: polynomial of degree <= 2 in the states (sums, products),
+    frozen coefficients (parameters, controls), inf_der / inf_inert operands unless `plain`"""
+    prof = {'methods': INF_METHODS, 'grids': INF_GRIDS, 'horizon': ['num', 'num', 'freeT'], 'obj_kinds': ['at_tf'], 'ncons': (0, 0),
+            'features': {'qstate': 0.0, 'p': 0.7, 'pc': 0.3, 'pcp': 0.0, 'v': 0.0, 'vc': 0.0, 'vcp': 0.0, 'time': 0.7},
+            'Ns': [1, 2, 2, 3], 'Ms': [1, 2, 2, 3], 'nxs': [1, 2, 2, 3], 'nus': [0, 1, 1, 2], 'degrees': [4], 'schemes': ['radau', 'legendre']}
+    if extra:
+        prof.update(extra)
+    d = G.gen_case(rng, prof)
+    nx = sum(d['states'])
+    d['states'] = [1] * nx
+    d['controls'] = [1] * sum(d['controls'])
+    s = G.symbols(d)
+    frozen = s['p'] + s['u'] + s['pc']
+    ops = []
+    terms = []
+    for _ in range(rng.randint(1, 3)):
+        kind = rng.choice(['lin', 'lin', 'quad', 'sq', 'frozen', 'cube'] + ([] if plain is True else ['der', 'der'] if plain == 'der' else ['der', 'inert', 'inert_coef']))
+        c = E.C(G.coef(rng))
+        xi = rng.choice(s['x'])
+        if kind == 'lin':
+            terms.append(('*', c, xi))
+        elif kind == 'quad':
+            terms.append(('*', ('*', c, xi), rng.choice(s['x'])))
+        elif kind == 'sq':
+            terms.append(('*', c, ('*', xi, xi)))
+        elif kind == 'frozen' and frozen and not plain:
+            # parameters and controls are not states: they enter through inf_inert (a bare parameter is a free symbol of
+            # reinterpret_expr's function and is rejected)
+            ops.append(('inert', rng.choice(frozen)))
+            terms.append(('*', ('*', c, ('off', len(ops) - 1)), xi))
+        elif kind == 'cube':
+            terms.append(('*', c, ('pow', xi, 3)))
+        elif kind == 'der':
+            ops.append(('der', xi[1]))
+            terms.append(('*', c, ('off', len(ops) - 1)))
+        elif kind == 'inert':
+            ops.append(('inert', G.poly(rng, s['x'] + s['p'], (1, 2), 2, must=s['x'])))
+            terms.append(('*', c, ('off', len(ops) - 1)))
+        elif kind == 'inert_coef':
+            ops.append(('inert', rng.choice(s['x'])))
+            terms.append(('*', ('*', c, ('off', len(ops) - 1)), xi))
+        else:
+            terms.append(('*', c, xi))
+    body = terms[0]
+    for t in terms[1:]:
+        body = ('+', body, t)
+    if not E.mentions(body, {'x'}):
+        body = ('+', body, ('*', E.C(G.coef(rng)), rng.choice(s['x'])))
+    bound = E.C(G.coef(rng))
+    if s['p'] and rng.random() < 0.3 and not plain:
+        ops.append(('inert', rng.choice(s['p'])))
+        bound = ('*', bound, ('off', len(ops) - 1))
+    rel = rng.choice(['le', 'le', 'ge'] if plain else ['le', 'le', 'ge', 'two'])
+    con = {'grid': 'inf', 'rel': rel, 'offs': [], 'infops': ops, 'first': True, 'last': True}
+    if rel == 'two':
+        con.update(a=[E.C(-abs(G.coef(rng)) - 1)], b=[body], c=[E.C(abs(G.coef(rng)) + 1)])
+    else:
+        con.update(a=[body], b=[bound])
+    d['cons'] = [con]
+    return d
+
+
+@register
+class C15(NlpCheck):
+    pid = "C15"
+    slices = ["inf-rows-vs-model", "sufficiency-on-rockit", "unsupported-rejected", "tightness-numeric"]
+    uses_generated = True
+    tags = ['inf']
+    profiles = []
+    R_quick, R_thorough = 2, 3
+
+    def explanation(self):
+        return ("theorems: Bernstein basis functions are non-negative on [0,1] and sum to one for every degree, so a bound on every "
+                "Bernstein coefficient bounds the polynomial on [0,1]; the power->Bernstein conversion of the model represents the same "
+                "polynomial (every degree) and the literal 5x5 matrix of add_inf_constraints (regenerated from the source) is that conversion "
+                "for degree 4; polynomial sum/product/negation/derivative/argument scaling commute with evaluation, so the re-evaluated "
+                "constraint (interval value) is the constraint along the step's state polynomial with every other symbol frozen; with the time "
+                "scale equal to the integrator step (regenerated: infTscale = perStep, infDerDt = perStep) non-negative certificate rows imply the "
+                "relation at every local time of the step, on any grid. correspondence: rows rockit generates for inf constraints vs the model's "
+                "exact Bernstein coefficients (MS/SS rk, DC degree 4, all grids, M up to 3); the property itself on rockit: at random decision "
+                "vectors, per integrator step, the smallest certificate slack never exceeds the smallest slack of the refined sample; "
+                "unsupported problems (expl_euler, collocation degree != 4, equalities, division) raise; the certificate gap shrinks as M grows")
+
+    def generated_obligations(self):
+        from tools import extract
+        tscale, dt, uses, matrix = extract.infcert()
+        notes = ["infTscale=%s infDerDt=%s %s" % (tscale, dt, uses)]
+        return 3, int(tscale == 'perStep') + int(dt == 'perStep') + int(all(uses.values()) and matrix is not None), notes
+
+    def case_features(self, desc, kind, detail):
+        m = desc['method']
+        return {"kind": kind, "method": m['kind'], "grid": m['grid']['kind'], "uniform": m['grid']['kind'] == 'uniform'}
+
+    def correspondence(self):
+        self.rows_slice()
+        self.sufficiency_slice()
+        self.rejected_slice()
+        self.tightness_slice()
+
+    def rows_slice(self):
+        R = self.R_quick if self.tier == 'quick' else self.R_thorough
+        n = 40 if self.tier == 'quick' else 500
+        fails = 0
+        for _ in range(n):
+            desc = gen_inf_case(self.rng)
+            self.count("inf-rel:%s" % desc['cons'][0]['rel'])
+            for op in desc['cons'][0]['infops']:
+                self.count("inf-op:%s" % op[0])
+            if not self.handle(desc, R, "inf-rows-vs-model"):
+                fails += 1
+                if fails >= 2:
+                    break
+
+    # ------------------------------------------------------------------------------------------
+    def inf_atoms_by_step(self, desc, b, pts, exact=True):
+        """atoms of the rows the inf constraint generated, grouped per integrator step, at each point of pts.
+        Found without any model: the rows of the twin problem (same OCP without the inf constraint) are a subsequence
+        of the rows of the full problem; both are evaluated exactly, so equal rows are equal numbers."""
+        twin = copy.deepcopy(desc)
+        twin['cons'] = []
+        b2 = B.build(twin)
+        if b2.nx_opti != b.nx_opti or b2.np_opti != b.np_opti:
+            return None
+        per_pt = []
+        for xv, pv in pts:
+            if exact:
+                f, g, lbg, ubg = B.eval_nlp(b, xv, pv)
+                f2, g2, lbg2, ubg2 = B.eval_nlp(b2, xv, pv)
+            else:
+                def num(bb):
+                    r = bb.Fnlp([float(v) for v in xv], [float(v) for v in pv])
+                    return [[(float(v), abs(float(v))) for v in r[i].full().flatten()] for i in (1, 2, 3)]
+                g, lbg, ubg = num(b)
+                g2, lbg2, ubg2 = num(b2)
+            rows = list(zip(g, lbg, ubg))
+            rows2 = list(zip(g2, lbg2, ubg2))
+            per_pt.append((rows, rows2))
+
+        def same(u, v):
+            if exact:
+                return u == v
+            return u == v or abs(u - v) <= 1e-12 * max(abs(u), abs(v))
+        # align on the first point, confirm on the others
+        rows, rows2 = per_pt[0]
+        ptr = 0
+        inf_idx = []
+        for i, r in enumerate(rows):
+            if ptr < len(rows2) and all(same(per_pt[q][0][i][0][0], per_pt[q][1][ptr][0][0]) and same(per_pt[q][0][i][1][0], per_pt[q][1][ptr][1][0])
+                                        and same(per_pt[q][0][i][2][0], per_pt[q][1][ptr][2][0]) for q in range(len(pts))):
+                ptr += 1
+            else:
+                inf_idx.append(i)
+        if ptr != len(rows2):
+            return None
+        m = desc['method']
+        nsteps = m['N'] * m['M']
+        if not inf_idx or len(inf_idx) % nsteps:
+            return {"count": len(inf_idx), "steps": nsteps, "chunks": None}
+        per = len(inf_idx) // nsteps
+        out = []
+        for q in range(len(pts)):
+            rws = per_pt[q][0]
+            chunks = []
+            for st in range(nsteps):
+                at = []
+                for i in inf_idx[st * per:(st + 1) * per]:
+                    at += B.atoms_of_impl([rws[i][0]], [rws[i][1]], [rws[i][2]])
+                chunks.append(at)
+            out.append(chunks)
+        return {"count": len(inf_idx), "steps": nsteps, "chunks": out}
+
+    def sufficiency_case(self, desc, refine=10, npts=2):
+        """→ None | (what, payload) : the property itself on rockit"""
+        import casadi as ca
+        b = B.build(desc)
+        con = desc['cons'][0]
+        pts = []
+        for _ in range(npts):
+            xv, pv, fv = En.rand_point(self.rng, b)
+            pts.append((xv, pv))
+        try:
+            info = self.inf_atoms_by_step(desc, b, pts)
+        except (ZeroDivisionError, OverflowError):
+            return None
+        if info is None:
+            return None
+        if info["chunks"] is None:
+            return ("grid='inf' constraint produced %d rows for %d integrator steps (not a whole number per step)" % (info["count"], info["steps"]),
+                    {"desc": desc})
+        # slack of the declared relation: b - a >= 0  (ge: a - b)
+        a, bb = con['a'][0], con['b'][0]
+        slack = ('-', bb, a) if con['rel'] == 'le' else ('-', a, bb)
+        has_der = bool(con.get('infops'))
+        m = desc['method']
+        nsteps = m['N'] * m['M']
+        nx = sum(desc['states'])
+        with B.quiet():
+            if has_der:
+                # inf_der(x_i) is the time derivative of the step's own state polynomial (degree 4): recover it exactly from
+                # refine+... samples of the state inside the step (5 points before the right end determine the quartic)
+                assert refine >= 5 and all(op[0] == 'der' for op in con['infops'])
+                ts, vs = b.ocp.sample(b.Xsym, grid='integrator', refine=refine)
+            else:
+                ts, vs = b.ocp.sample(E.to_casadi(slack, b.sym_base), grid='integrator', refine=refine)
+            W = Walker(ca.Function('s', [b.opti.x, b.opti.p], [ca.vec(ca.MX(ts)), ca.vec(ca.MX(vs))]))
+        for q, (xv, pv) in enumerate(pts):
+            try:
+                res = W([xv, pv])
+            except (ZeroDivisionError, OverflowError):
+                continue
+            tv, sv = res[0], res[1]
+            if has_der:
+                npt = len(tv)
+                xs = [[sv[i * nx + r][0] for r in range(nx)] for i in range(npt)]
+                out = [None] * npt
+                for st in range(nsteps):
+                    base = list(range(st * refine, st * refine + 5))
+                    tt = [tv[i][0] for i in base]
+                    for i in list(range(st * refine, (st + 1) * refine)):
+                        env = {('x', r): lagrange_value(tt, [xs[j][r] for j in base], tv[i][0]) for r in range(nx)}
+                        for mi, op in enumerate(con['infops']):
+                            env[('off', mi)] = lagrange_derivative(tt, [xs[j][op[1]] for j in base], tv[i][0])
+                        out[i] = (E.evaluate(slack, env), 1.0 + sum(abs(fl(v)) for v in env.values()) ** 2)
+                out[npt - 1] = out[npt - 2]      # the final point is covered by the theorem; not re-derived here
+                sv = out
+            for st in range(nsteps):
+                atoms = info["chunks"][q][st]
+                cert = min(a_[0] for a_ in atoms)
+                idx = list(range(st * refine, (st + 1) * refine)) + ([nsteps * refine] if st == nsteps - 1 else [])
+                for i in idx:
+                    val, mg = sv[i]
+                    tol = 1e-7 * (1.0 + mg + max(a_[1] for a_ in atoms))
+                    if fl(val) < fl(cert) - tol:
+                        return ("the smallest slack of the grid='inf' rows of integrator step %d is %s, but the refined sample of the constrained expression "
+                                "at t=%s (inside that step) has slack %s: rows satisfied with that margin do not imply the constraint there"
+                                % (st, float(cert), float(tv[i][0]), float(val)),
+                                {"desc": desc, "x": xv, "p": pv, "step": st, "t": tv[i][0], "certificate_min": cert, "sample_slack": val})
+        return None
+
+    def sufficiency_slice(self):
+        name = "sufficiency-on-rockit"
+        n = 25 if self.tier == 'quick' else 300
+        for _ in range(n):
+            with_der = self.rng.random() < 0.35
+            desc = gen_inf_case(self.rng, plain='der' if with_der else True)
+            try:
+                bad = self.sufficiency_case(desc, refine=6 if desc['cons'][0].get('infops') else 10)
+            except OverflowError:
+                continue
+            except Exception as ex:
+                self.slice_ok[name] = False
+                self.violation("rockit raised on a supported grid='inf' problem: %s: %s" % (type(ex).__name__, str(ex)[:300]), {"desc": desc},
+                               {"kind": "exception", "method": desc['method']['kind']})
+                return
+            self.record_case(desc, True, {"method": desc['method'], "constraint": E.to_tokens(desc['cons'][0]['a'][0]), "rel": desc['cons'][0]['rel']})
+            self.count("sufficiency-checked")
+            if bad:
+                self.slice_ok[name] = False
+                # shrink: fewer intervals / steps while it still fails
+                cur = desc
+                for _ in range(6):
+                    improved = False
+                    for key in ('N', 'M'):
+                        if cur['method'][key] > 1 and cur['method']['grid']['kind'] != 'data':
+                            c2 = copy.deepcopy(cur)
+                            c2['method'][key] -= 1
+                            try:
+                                b2 = self.sufficiency_case(c2, refine=6 if c2['cons'][0].get('infops') else 10)
+                            except Exception:
+                                b2 = None
+                            if b2:
+                                cur, bad, improved = c2, b2, True
+                                break
+                    if not improved:
+                        break
+                self.violation(bad[0], bad[1], self.case_features(cur, "inf-not-sufficient", None))
+                return
+
+    def rejected_slice(self):
+        name = "unsupported-rejected"
+        n = 8 if self.tier == 'quick' else 60
+        for _ in range(n):
+            kind = self.rng.choice(['euler', 'dc_degree', 'eq', 'division'])
+            if kind == 'euler':
+                desc = gen_inf_case(self.rng, plain=True, extra={'methods': [('ms', 'euler'), ('ss', 'euler')]})
+            elif kind == 'dc_degree':
+                desc = gen_inf_case(self.rng, plain=True, extra={'methods': [('dc', 'rk')], 'degrees': [1, 2, 3, 5]})
+            elif kind == 'eq':
+                desc = gen_inf_case(self.rng, plain=True)
+                desc['cons'][0]['rel'] = 'eq'
+            else:
+                desc = gen_inf_case(self.rng, plain=True)
+                c = desc['cons'][0]
+                x0 = ('x', 0)
+                c['a'] = [('/', c['a'][0], ('+', E.C(1), ('*', x0, x0)))]
+            self.evaluations += 1
+            self.count("unsupported:" + kind)
+            raised = False
+            try:
+                if kind in ('eq', 'division'):
+                    b = B.build(desc)
+                    bad = None
+                else:
+                    bad = self.sufficiency_case(desc)
+            except Exception:
+                raised = True
+                bad = None
+            # model must reject as well (euler / dc degree: wrong coefficient count is a rejection of the matrix product)
+            if raised:
+                continue
+            if kind in ('eq', 'division'):
+                self.slice_ok[name] = False
+                self.violation("a grid='inf' constraint with %s was accepted: no sufficient condition can be produced for it and it was not rejected"
+                               % ("an equality" if kind == 'eq' else "a division"), {"desc": desc}, {"kind": "inf-accepted", "what": kind})
+                return
+            if bad:
+                self.slice_ok[name] = False
+                self.violation("unsupported configuration accepted and not sufficient: " + bad[0], bad[1], {"kind": "inf-accepted", "what": kind})
+                return
+
+    def tightness_slice(self):
+        """numeric support (a test, not a theorem): the gap between the certificate and the true extremum shrinks as M grows"""
+        import casadi as ca
+        name = "tightness-numeric"
+        n = 3 if self.tier == 'quick' else 20
+        for _ in range(n):
+            base = gen_inf_case(self.rng, plain=True, extra={'methods': [('ss', 'rk')], 'grids': ['uniform', 'geometric'], 'Ns': [2], 'horizon': ['num'],
+                                                             'features': {'p': 0.0, 'pc': 0.0, 'qstate': 0.0, 'time': 0.5}})
+            gaps = []
+            xv = None
+            for M in (1, 2, 4, 8):
+                d = copy.deepcopy(base)
+                d['method']['M'] = M
+                try:
+                    b = B.build(d)
+                except Exception:
+                    gaps = None
+                    break
+                if xv is None:
+                    # a tame point: small states and controls (single shooting: x0 and the controls are the decision vector)
+                    xv = [Fr(self.rng.randint(-3, 3), 4) for _ in range(b.nx_opti)]
+                    pv = [Fr(1) for _ in range(b.np_opti)]
+                if len(xv) != b.nx_opti:
+                    gaps = None
+                    break
+                info = self.inf_atoms_by_step(d, b, [(xv, pv)], exact=False)
+                if not info or not info.get("chunks"):
+                    gaps = None
+                    break
+                con = d['cons'][0]
+                a, bb = con['a'][0], con['b'][0]
+                slack = ('-', bb, a) if con['rel'] == 'le' else ('-', a, bb)
+                with B.quiet():
+                    ts, vs = b.ocp.sample(E.to_casadi(slack, b.sym_base), grid='integrator', refine=16)
+                    try:
+                        F = ca.Function('s', [b.opti.x, b.opti.p], [ca.vec(ca.MX(vs))])
+                    except RuntimeError:
+                        gaps = None      # an inactive decision variable (in neither f nor g) is not part of opti.x
+                        break
+                sv = [float(v) for v in F([float(v) for v in xv], [float(v) for v in pv]).full().flatten()]
+                nsteps = d['method']['N'] * M
+                gap = 0.0
+                for st in range(nsteps):
+                    cert = min(float(a_[0]) for a_ in info["chunks"][0][st])
+                    true = min(sv[st * 16:(st + 1) * 16 + 1])
+                    gap = max(gap, true - cert)
+                gaps.append(gap)
+            self.evaluations += 1
+            if not gaps:
+                continue
+            self.count("tightness-runs")
+            # gap_M must not grow and must have dropped substantially by M=8 (quadratic in the step for smooth data)
+            if gaps[0] > 1e-9 and not (gaps[3] <= 0.35 * gaps[0] + 1e-9):
+                self.slice_ok[name] = False
+                self.violation("certificate gap does not shrink as M grows: gaps for M=1,2,4,8 are %s" % gaps, {"desc": base, "gaps": gaps},
+                               {"kind": "inf-not-tight"})
+                return
